@@ -31,12 +31,6 @@ def region_of_meta(meta, tag):
         v1 = v + 1
     else:
         v1 = v
-    if tag == "label":
-        if form in ("idxlbl", "idxlbl+1"):
-            return "C3"            # a label as constant index offset is rejected
-        if form in ("extind+1",):
-            return "C3"
-        return None
     return None
 
 
@@ -133,7 +127,7 @@ def run_c12(run, thorough=False):
     cases = list(gen_asm.random_programs(rnd, n, valid_bias=0.5)) + list(gen_asm.mutations(rnd, n))
     # single statements with operands drawn from a pool of tricky strings
     TRICKY = ["5,Z", "1,PC", "5,y", ",PCR", "S", "A,X,", "#", "#256", "#-129", "<$1234", "[$12]", "70000", "$12345", "[,X+]", "[,-Y]", ",X+++",
-              "[5", "5]", "A,B", "D,PCR", "[A,PCR]", "-0,X", "00,X", "$0,X", "16,PCR", "-17,PCR", "X", "#'A", "'", "%101", ">", "<", "[]", "[,]", ","]
+              "[5", "5]", "A,B", "D,PCR", "[A,PCR]", "A,X+", "B,-X", "[D,--Y]", "D,U++", "-0,X", "00,X", "$0,X", "16,PCR", "-17,PCR", "X", "#'A", "'", "%101", ">", "<", "[]", "[,]", ","]
     for mn in [i.mnemonic for i in gen_asm.real_instructions()][:: (1 if thorough else 7)]:
         for t in TRICKY:
             cases.append({"lines": gen_asm.L(" %s %s" % (mn, t)), "tag": "tricky", "meta": {}})
@@ -190,6 +184,8 @@ def bad_register(mn, opnd):
             return right
         if right == "PCR" and left in ("", "A", "B", "D"):
             return right
+        if left in ("A", "B", "D") and ("+" in right or "-" in right):
+            return left + "," + right          # an accumulator offset cannot be combined with auto increment / decrement
     return None
 
 
@@ -446,6 +442,14 @@ def run_c04(run, thorough=False):
                       "meta": {"mn": mn, "pos": pos, "k": k, "stmt": 3, "label": True}})
         cases.append({"lines": gen_asm.L("L %s %s" % (mn, t), " NOP", " NOP", " NOP"), "tag": "label-expr",
                       "meta": {"mn": mn, "pos": pos, "k": k, "stmt": 0, "label": True}})
+    # number op label, in the order written (fix bd9f69a)
+    for org in ("$1000", "$0E00"):
+        for t, fn in (("#5-L", lambda a: 5 - a), ("#$4000-L", lambda a: 0x4000 - a), ("#$4000/L", lambda a: 0x4000 // a), ("#3*L", lambda a: 3 * a),
+                      ("#L/3", lambda a: a // 3), ("#$FFFF-L", lambda a: 0xFFFF - a)):
+            for late in (False, True):
+                body = [" LDX %s" % t, " NOP", "L NOP"] if late else ["L NOP", " NOP", " LDX %s" % t]
+                cases.append({"lines": gen_asm.L(*([" ORG " + org] + body)), "tag": "label-order",
+                              "meta": {"mn": "LDX", "pos": "imm", "stmt": 1 if late else 3, "labelfn": fn}})
     # label - constant below address zero: reduced modulo 65536 (fix 1477b47)
     for org, k in (("$0", 20), ("$0", 300), ("$10", 20000), ("$10", 65535)):
         for late in (False, True):
@@ -471,7 +475,9 @@ def run_c04(run, thorough=False):
         m = c["meta"]
         same = fam_asm_key({"lines": c["lines"], "files": None}) not in bad
         inp = {"lines": c["lines"], "position": m["pos"]}
-        if m.get("label"):
+        if m.get("labelfn"):
+            val = m["labelfn"](symtab_ints(im).get("L") or 1) if im["k"] == "ok" else 0
+        elif m.get("label"):
             val = (symtab_ints(im).get("L") or 0) + m["k"] if im["k"] == "ok" else 0
         elif m.get("label2"):
             a_, op_, b_ = m["label2"]
